@@ -8,6 +8,7 @@ mod dprig;
 mod engine;
 mod props;
 mod refcodec;
+mod w4;
 
 use engine::Tier;
 
@@ -27,6 +28,7 @@ fn main() {
             "C10" => props::c10::replay(&v),
             "C16" => props::c16::replay(&v),
             "C17" => props::c17::replay(&v),
+            "C03" | "C04" | "C07" | "C08" | "C14" => props::w4props::replay(&v),
             _ => eprintln!("no replay for {prop}"),
         }
         return;
@@ -50,6 +52,11 @@ fn main() {
         "C10" => props::c10::run(tier),
         "C16" => props::c16::run(tier),
         "C17" => props::c17::run(tier),
+        "C03" => props::w4props::run_c03(tier),
+        "C04" => props::w4props::run_c04(tier),
+        "C07" => props::w4props::run_c07(tier),
+        "C08" => props::w4props::run_c08(tier),
+        "C14" => props::w4props::run_c14(tier),
         _ => {
             eprintln!("unknown property {prop}");
             std::process::exit(2)
